@@ -115,9 +115,13 @@ func main() {
 			fmt.Fprintln(os.Stderr, err)
 			os.Exit(3)
 		}
-		ck := engine.Get(rf.Property)
+		id := rf.Property
+		if rf.Check != "" {
+			id = rf.Check
+		}
+		ck := engine.Get(id)
 		if ck == nil {
-			fmt.Fprintln(os.Stderr, "unknown property", rf.Property)
+			fmt.Fprintf(os.Stderr, "check %s is not part of this build of jdmc (replay files of the map-order leg need .work/bin/jdmc-ord)\n", id)
 			os.Exit(3)
 		}
 		res := ck.Run(&rf.Case)
